@@ -549,12 +549,21 @@ func runMix(cfg *config, out *output) error {
 						// everybody starts on the untouched shared merklizer at the same moment
 						idx = mzOps[rng.Intn(len(mzOps))]
 					}
+					if i == k-1 && k > 5 && len(mzOps) > 0 {
+						// the last operation reads the shared merklizer again, after everybody has
+						// merklized other documents (buffers or state shared between merklizers)
+						idx = mzOps[rng.Intn(len(mzOps))]
+					}
 					if (i == 3 || i == 4) && len(slowOps) > 0 {
 						// ... and then everybody loads one of the few slow, uncacheable origins: many
 						// loads of one URL are in flight together
 						idx = slowOps[rng.Intn(len(slowOps))]
 					}
-					if (i == 1 || i == 2) && len(ipfsOps) > 0 {
+					if (i == 2 || i == 6) && len(byKind["merklize"]) > 0 {
+						// everybody merklizes some document while the others do
+						idx = byKind["merklize"][rng.Intn(len(byKind["merklize"]))]
+					}
+					if (i == 1 || i == 5) && len(ipfsOps) > 0 {
 						// ... and then loads the same few IPFS resources under their different names
 						// (first cold, then from the warm cache) together with everybody else
 						idx = ipfsOps[rng.Intn(len(ipfsOps))]
